@@ -19,8 +19,8 @@ import (
 	"github.com/flamego/flamego/verifharness/internal/rt"
 )
 
-const rule = "case = one handler of a supported return shape (string, []byte, error, *string, named string, any holding a string, (int,string), (int,[]byte), (int,error), (string,error), ([]byte,error); func() (int,string) both as the auto-wrapped fast path and as a named func type invoked reflectively) returning generated values (arbitrary bytes, empty, nil, nil/non-nil errors of 4 concrete types incl. one with an empty message, status 100..999), placed as middleware, group handler, route handler or action, followed by a marker handler; optionally a custom ReturnHandler mapped at application or request scope. " +
-	"Oracle: an own table (status, body, chain continues?) checked on a spy writer, 'marker ran <=> nothing was written', fast path == reflective path, and a custom ReturnHandler receives exactly the returned values while the table is not applied. " +
+const rule = "case = one handler of a supported return shape (string, []byte, error, *string, named string, any holding a string, (int,string), (int,[]byte), (int,error), (string,error), ([]byte,error); func() (int,string) both as the auto-wrapped fast path and as a named func type invoked reflectively) optionally flushing, sending a status line or writing itself first and then returning generated values (arbitrary bytes, empty, nil, nil/non-nil errors of 4 concrete types incl. one with an empty message, status 100..999), placed as middleware, group handler, route handler or action, followed by a marker handler; optionally a custom ReturnHandler mapped at application or request scope. " +
+	"Oracle: an own table (status, body, chain continues?) checked on a spy writer (after the handler's own output, if any: the returned values are rendered all the same), 'marker ran <=> nothing was written', fast path == reflective path, and a custom ReturnHandler receives exactly the returned values while the table is not applied. " +
 	"non-trivial = empty / nil / zero results, a nil error in a pair, a pointer or interface result, a non-200 status, a position other than the route handler, or a custom ReturnHandler; distinct by case text"
 
 var assumptions = []string{
@@ -41,6 +41,9 @@ type Case struct {
 	// Pre puts a handler in front (before a request-scope mapping) that
 	// returns a value which writes nothing: "", emptystr, nilerr, emptybytes.
 	Pre string `json:"pre,omitempty"`
+	// Own is what the handler itself does to the response before it returns:
+	// "", flush, wh (WriteHeader 202), w (Write "own:").
+	Own string `json:"own,omitempty"`
 	Method string `json:"method"`
 }
 
@@ -74,7 +77,7 @@ func (c Case) err() error {
 }
 
 // handler builds the handler and the values it returns.
-func (c Case) handler() (flamego.Handler, []interface{}) {
+func (c Case) handler(own func()) (flamego.Handler, []interface{}) {
 	s := c.str()
 	b := []byte(s)
 	if c.Nil {
@@ -83,40 +86,40 @@ func (c Case) handler() (flamego.Handler, []interface{}) {
 	e := c.err()
 	switch c.Shape {
 	case "string":
-		return func() string { return s }, []interface{}{s}
+		return func() string { own(); return s }, []interface{}{s}
 	case "bytes":
-		return func() []byte { return b }, []interface{}{b}
+		return func() []byte { own(); return b }, []interface{}{b}
 	case "error":
-		return func() error { return e }, []interface{}{e}
+		return func() error { own(); return e }, []interface{}{e}
 	case "pstring":
 		var p *string
 		if !c.Nil {
 			p = &s
 		}
-		return func() *string { return p }, []interface{}{p}
+		return func() *string { own(); return p }, []interface{}{p}
 	case "named":
-		return func() named { return named(s) }, []interface{}{named(s)}
+		return func() named { own(); return named(s) }, []interface{}{named(s)}
 	case "any":
 		var v interface{} = s
 		if c.Nil {
 			v = nil
 		}
-		return func() interface{} { return v }, []interface{}{v}
+		return func() interface{} { own(); return v }, []interface{}{v}
 	case "int_string":
 		// a named func type so that the reflective path is taken
-		return func(flamego.Context) (int, string) { return c.Code, s }, []interface{}{c.Code, s}
+		return func(flamego.Context) (int, string) { own(); return c.Code, s }, []interface{}{c.Code, s}
 	case "teapot_fast":
-		return func() (int, string) { return c.Code, s }, []interface{}{c.Code, s}
+		return func() (int, string) { own(); return c.Code, s }, []interface{}{c.Code, s}
 	case "teapot_named":
-		return teapotNamed(func() (int, string) { return c.Code, s }), []interface{}{c.Code, s}
+		return teapotNamed(func() (int, string) { own(); return c.Code, s }), []interface{}{c.Code, s}
 	case "int_bytes":
-		return func() (int, []byte) { return c.Code, b }, []interface{}{c.Code, b}
+		return func() (int, []byte) { own(); return c.Code, b }, []interface{}{c.Code, b}
 	case "int_error":
-		return func() (int, error) { return c.Code, e }, []interface{}{c.Code, e}
+		return func() (int, error) { own(); return c.Code, e }, []interface{}{c.Code, e}
 	case "string_error":
-		return func() (string, error) { return s, e }, []interface{}{s, e}
+		return func() (string, error) { own(); return s, e }, []interface{}{s, e}
 	case "bytes_error":
-		return func() ([]byte, error) { return b, e }, []interface{}{b, e}
+		return func() ([]byte, error) { own(); return b, e }, []interface{}{b, e}
 	}
 	panic("harness: shape " + c.Shape)
 }
@@ -168,8 +171,19 @@ func (c Case) table() (status int, body string, written bool) {
 }
 
 func checkCase(c Case) (out evid.Outcome) {
-	h, returned := c.handler()
+	var rw flamego.ResponseWriter
+	h, returned := c.handler(func() {
+		switch c.Own {
+		case "flush":
+			rw.Flush()
+		case "wh":
+			rw.WriteHeader(202)
+		case "w":
+			_, _ = rw.Write([]byte("own:"))
+		}
+	})
 	f := flamego.NewWithLogger(io.Discard)
+	f.Use(func(ctx flamego.Context) { rw = ctx.ResponseWriter() })
 	markerRan := false
 	marker := func() { markerRan = true }
 	var customGot []reflect.Value
@@ -214,6 +228,16 @@ func checkCase(c Case) (out evid.Outcome) {
 	wantStatus, wantBody, wantWritten := c.table()
 	if c.Custom != "" {
 		wantStatus, wantBody, wantWritten = 0, "", false
+	}
+	// What the handler did to the response itself comes first; the values it
+	// returns are rendered all the same (only the status line is taken by then).
+	switch c.Own {
+	case "flush":
+		wantStatus, wantWritten = 200, true
+	case "wh":
+		wantStatus, wantWritten = 202, true
+	case "w":
+		wantStatus, wantBody, wantWritten = 200, "own:"+wantBody, true
 	}
 	if c.Method == "HEAD" {
 		wantBody = ""
@@ -293,6 +317,10 @@ func checkCase(c Case) (out evid.Outcome) {
 		nt = true
 		out.Classes = append(out.Classes, "value-returned-earlier-in-chain")
 	}
+	if c.Own != "" {
+		nt = true
+		out.Classes = append(out.Classes, "handler-wrote-before-returning")
+	}
 	out.Classes = append(out.Classes, "shape:"+c.Shape)
 	out.NonTrivial = nt
 	return out
@@ -325,6 +353,7 @@ func genCase(t *rapid.T) Case {
 		Custom: []string{"", "", "", "app", "request"}[rapid.IntRange(0, 4).Draw(t, "custom")],
 		Method: []string{"GET", "GET", "GET", "HEAD"}[rapid.IntRange(0, 3).Draw(t, "method")],
 		Pre:    []string{"", "", "emptystr", "nilerr", "emptybytes"}[rapid.IntRange(0, 4).Draw(t, "pre")],
+		Own:    []string{"", "", "", "flush", "wh", "w"}[rapid.IntRange(0, 5).Draw(t, "own")],
 	}
 	if rapid.IntRange(0, 9).Draw(t, "anycode") == 0 {
 		c.Code = rapid.IntRange(100, 999).Draw(t, "rawcode")
